@@ -419,6 +419,9 @@ package gogu
 //@ func gogu.swap
 //@   property C12
 //@   inline
+//@   requires a != nil && b != nil
+//@   modifies *a, *b
+//@   ensures deref(a) == old(deref(b)) && deref(b) == old(deref(a))
 
 //@ func gogu.Merge
 //@   property C12 C16
@@ -435,3 +438,135 @@ package gogu
 //@   invariant forall p int, q int :: 0 <= p && p <= q && q <= i ==> ps[p] <= ps[q]
 //@   invariant forall p int, j int :: 0 <= p && p < i && 0 <= j && j < len(params[p]) ==> merged[ps[p] + j] == params[p][j]
 //@   ghost ps[pre(i)+1] = ps[pre(i)] + len(params[pre(i)])
+
+//@ func gogu.Shuffle
+//@   property C12 C16
+//@   ghost perm map[int]int = idmap()
+//@   ghost tmp int
+//@   ensures fresh(result) && len(result) == len(src)
+//@   ensures forall k int :: 0 <= k && k < len(src) ==> 0 <= perm[k] && perm[k] < len(src) && result[k] == src[perm[k]]
+//@   ensures forall a int, b int :: 0 <= a && a < b && b < len(src) ==> perm[a] != perm[b]
+//@ loop 1
+//@   invariant -1 <= i && i < len(src)
+//@   invariant forall k int :: 0 <= k && k < len(src) ==> 0 <= perm[k] && perm[k] < len(src) && dst[k] == src[perm[k]]
+//@   invariant forall a int, b int :: 0 <= a && a < b && b < len(src) ==> perm[a] != perm[b]
+//@   ghost tmp = perm[pre(i)]
+//@   ghost perm[pre(i)] = perm[j]
+//@   ghost perm[j] = tmp
+
+//@ func gogu.Chunk
+//@   property C12 C16
+//@   panics-when size <= 0
+//@   ghost cs map[int]int
+//@   ensures len(slice) == 0 <==> len(result) == 0
+//@   ensures fresh(result)
+//@   ensures len(result) > 0 ==> cs[0] == 0 && cs[len(result)-1] < len(slice) && len(slice) <= cs[len(result)-1] + size
+//@   ensures forall c int :: 0 <= c && c < len(result) - 1 ==> cs[c+1] == cs[c] + size
+//@   ensures forall c int :: 0 <= c && c < len(result) ==> sarr(result[c]) == sarr(slice) && soff(result[c]) == soff(slice) + cs[c] && len(result[c]) == min(size, len(slice) - cs[c])
+//@ loop 1
+//@   invariant 0 <= i && i <= len(slice) && fresh(result) && size > 0
+//@   invariant i == 0 <==> len(result) == 0
+//@   invariant len(result) > 0 ==> cs[0] == 0 && cs[len(result)-1] < i && i <= cs[len(result)-1] + size && cs[len(result)-1] % size == 0
+//@   invariant forall c int :: 0 <= c && c < len(result) - 1 ==> cs[c+1] == cs[c] + size
+//@   invariant forall c int :: 0 <= c && c < len(result) ==> sarr(result[c]) == sarr(slice) && soff(result[c]) == soff(slice) + cs[c] && len(result[c]) == min(size, len(slice) - cs[c])
+//@   ghost cs[len(result)-1] = pre(i) when pre(i) % size == 0
+
+//@ pred rowsOK(r [][]T, n int, w int) := forall a int :: 0 <= a && a < n ==> fresh(r[a]) && len(r[a]) == w && sarr(r[a]) != 0 && (forall b int :: 0 <= b && b < n && a != b ==> sarr(r[a]) != sarr(r[b]))
+
+//@ func gogu.Zip
+//@   property C12 C16
+//@   panics-when exists j int :: 0 <= j && j < len(slices) && len(slices[j]) != len(slices)
+//@   ensures fresh(result) && len(result) == len(slices)
+//@   ensures rowsOK(result, len(slices), len(slices))
+//@   ensures forall i int, x int :: 0 <= i && i < len(slices) && 0 <= x && x < len(slices) ==> result[i][x] == slices[x][i]
+//@ loop 1
+//@   invariant 0 <= $i && $i <= len(slices) && sliceLen == len(slices) && fresh(result) && len(result) == len(slices)
+//@   invariant forall j int :: 0 <= j && j < $i ==> len(slices[j]) == sliceLen
+//@   invariant rowsOK(result, $i, sliceLen)
+//@ loop 2
+//@   invariant 0 <= x && x <= sliceLen && sliceLen == len(slices) && fresh(result) && len(result) == len(slices)
+//@   invariant forall j int :: 0 <= j && j < len(slices) ==> len(slices[j]) == sliceLen
+//@   invariant rowsOK(result, len(slices), sliceLen)
+//@   invariant forall i2 int, x2 int :: 0 <= i2 && i2 < len(slices) && 0 <= x2 && x2 < x ==> result[i2][x2] == slices[x2][i2]
+//@ loop 3
+//@   invariant 0 <= i && i <= len(slices) && 0 <= x && x < sliceLen && sliceLen == len(slices) && fresh(result) && len(result) == len(slices)
+//@   invariant forall j int :: 0 <= j && j < len(slices) ==> len(slices[j]) == sliceLen
+//@   invariant rowsOK(result, len(slices), sliceLen)
+//@   invariant forall i2 int, x2 int :: 0 <= i2 && i2 < len(slices) && 0 <= x2 && x2 < x ==> result[i2][x2] == slices[x2][i2]
+//@   invariant forall i2 int :: 0 <= i2 && i2 < i ==> result[i2][x] == slices[x][i2]
+
+//@ func gogu.Unzip
+//@   property C12 C16
+//@   panics-when exists j int :: 0 <= j && j < len(slices) && len(slices[j]) != len(slices)
+//@   ensures fresh(result) && len(result) == len(slices)
+//@   ensures rowsOK(result, len(slices), len(slices))
+//@   ensures forall i int, x int :: 0 <= i && i < len(slices) && 0 <= x && x < len(slices) ==> result[x][i] == slices[i][x]
+//@ loop 1
+//@   invariant 0 <= $i && $i <= len(slices) && sliceLen == len(slices) && fresh(result) && len(result) == len(slices)
+//@   invariant forall j int :: 0 <= j && j < $i ==> len(slices[j]) == sliceLen
+//@   invariant rowsOK(result, $i, sliceLen)
+//@ loop 2
+//@   invariant 0 <= x && x <= sliceLen && sliceLen == len(slices) && fresh(result) && len(result) == len(slices)
+//@   invariant forall j int :: 0 <= j && j < len(slices) ==> len(slices[j]) == sliceLen
+//@   invariant rowsOK(result, len(slices), sliceLen)
+//@   invariant forall i2 int, x2 int :: 0 <= i2 && i2 < len(slices) && 0 <= x2 && x2 < x ==> result[x2][i2] == slices[i2][x2]
+//@ loop 3
+//@   invariant 0 <= i && i <= len(slices) && 0 <= x && x < sliceLen && sliceLen == len(slices) && fresh(result) && len(result) == len(slices)
+//@   invariant forall j int :: 0 <= j && j < len(slices) ==> len(slices[j]) == sliceLen
+//@   invariant rowsOK(result, len(slices), sliceLen)
+//@   invariant forall i2 int, x2 int :: 0 <= i2 && i2 < len(slices) && 0 <= x2 && x2 < x ==> result[x2][i2] == slices[i2][x2]
+//@   invariant forall i2 int :: 0 <= i2 && i2 < i ==> result[x][i2] == slices[i2][x]
+
+//@ func gogu.Reject
+//@   property C12 C16
+//@   requires fn != nil
+//@   modifies elems(slice)
+//@   ghost r int = 0
+//@   ghost pos map[int]int
+//@   ghost back map[int]int
+//@   ensures sarr(result) == sarr(slice) && soff(result) == soff(slice) && len(result) <= len(slice)
+//@   ensures forall k int :: 0 <= k && k < len(result) ==> 0 <= pos[k] && pos[k] < len(slice) && result[k] == old(slice[pos[k]]) && !call(fn, old(slice[pos[k]]))
+//@   ensures forall k int :: 1 <= k && k < len(result) ==> pos[k-1] < pos[k]
+//@   ensures forall j int :: 0 <= j && j < len(slice) && !call(fn, old(slice[j])) ==> 0 <= back[j] && back[j] < len(result) && pos[back[j]] == j
+//@   ensures forall a int :: a < soff(slice) || a >= soff(slice) + len(slice) ==> elems(slice)[a] == old(elems(slice)[a])
+//@ loop 1
+//@   invariant sarr(slice) == sarr(param(slice)) && soff(slice) == soff(param(slice)) && cap(slice) == cap(param(slice)) && r >= 0 && len(slice) == len(param(slice)) - r && 0 <= i && i <= len(slice)
+//@   invariant forall k int :: 0 <= k && k < i ==> 0 <= pos[k] && pos[k] < i + r && slice[k] == old(param(slice)[pos[k]]) && !call(fn, old(param(slice)[pos[k]]))
+//@   invariant forall k int :: 1 <= k && k < i ==> pos[k-1] < pos[k]
+//@   invariant forall j int :: 0 <= j && j < i + r && !call(fn, old(param(slice)[j])) ==> 0 <= back[j] && back[j] < i && pos[back[j]] == j
+//@   invariant forall k int :: i <= k && k < len(slice) ==> slice[k] == old(param(slice)[k + r])
+//@   invariant forall a int :: a < soff(param(slice)) || a >= soff(param(slice)) + len(param(slice)) ==> elems(param(slice))[a] == old(elems(param(slice))[a])
+//@   ghost pos[pre(i)] = pre(i) + r when !call(fn, old(param(slice)[pre(i) + r]))
+//@   ghost back[pre(i) + r] = pre(i) when !call(fn, old(param(slice)[pre(i) + r]))
+//@   ghost r = r + 1 when call(fn, old(param(slice)[pre(i) + r]))
+
+//@ func gogu.mapByIndex
+//@   property C12 C16
+//@   requires len(origSlice) >= len(mapSlice)
+//@   ghost gpos map[T1]map[int]int
+//@   ghost gback map[int]int
+//@   ensures fresh(result) && result != nil
+//@   ensures forall k T1 :: k in result ==> len(result[k]) > 0 && fresh(result[k])
+//@   ensures forall k T1, j int :: k in result && 0 <= j && j < len(result[k]) ==> 0 <= gpos[k][j] && gpos[k][j] < len(mapSlice) && mapSlice[gpos[k][j]] == k && result[k][j] == origSlice[gpos[k][j]]
+//@   ensures forall k T1, j int :: k in result && 1 <= j && j < len(result[k]) ==> gpos[k][j-1] < gpos[k][j]
+//@   ensures forall x int :: 0 <= x && x < len(mapSlice) ==> mapSlice[x] in result && 0 <= gback[x] && gback[x] < len(result[mapSlice[x]]) && gpos[mapSlice[x]][gback[x]] == x
+//@ loop 1
+//@   invariant 0 <= $i && $i <= len(mapSlice) && fresh(result) && result != nil
+//@   invariant forall k T1 :: k in result ==> len(result[k]) > 0 && fresh(result[k]) && sarr(result[k]) != 0 && soff(result[k]) == 0 && len(result[k]) <= $i && cap(result[k]) == len(mapSlice)
+//@   invariant forall k1 T1, k2 T1 :: k1 in result && k2 in result && k1 != k2 ==> sarr(result[k1]) != sarr(result[k2])
+//@   invariant forall k T1, j int :: k in result && 0 <= j && j < len(result[k]) ==> 0 <= gpos[k][j] && gpos[k][j] < $i && mapSlice[gpos[k][j]] == k && result[k][j] == origSlice[gpos[k][j]]
+//@   invariant forall k T1, j int :: k in result && 1 <= j && j < len(result[k]) ==> gpos[k][j-1] < gpos[k][j]
+//@   invariant forall x int :: 0 <= x && x < $i ==> mapSlice[x] in result && 0 <= gback[x] && gback[x] < len(result[mapSlice[x]]) && gpos[mapSlice[x]][gback[x]] == x
+//@   ghost gpos[v][len(result[v])-1] = $i
+//@   ghost gback[$i] = len(result[v])-1
+
+//@ func gogu.GroupBy
+//@   property C12 C16
+//@   requires fn != nil
+//@   ghost gpos map[T2]map[int]int
+//@   ghost gback map[int]int
+//@   ensures fresh(result) && result != nil
+//@   ensures forall k T2 :: k in result ==> len(result[k]) > 0 && fresh(result[k])
+//@   ensures forall k T2, j int :: k in result && 0 <= j && j < len(result[k]) ==> 0 <= gpos[k][j] && gpos[k][j] < len(slice) && call(fn, slice[gpos[k][j]]) == k && result[k][j] == slice[gpos[k][j]]
+//@   ensures forall k T2, j int :: k in result && 1 <= j && j < len(result[k]) ==> gpos[k][j-1] < gpos[k][j]
+//@   ensures forall x int :: 0 <= x && x < len(slice) ==> call(fn, slice[x]) in result && 0 <= gback[x] && gback[x] < len(result[call(fn, slice[x])]) && gpos[call(fn, slice[x])][gback[x]] == x
